@@ -690,7 +690,7 @@ class Emitter:
         for cty in sorted(self.need_mm):
             nm = san(cty)
             o.append('static void ir2c_memcpy_%s(%s* d, %s* s, size_t n) { size_t k = n / sizeof(%s); for (size_t i = 0; i < k; i++) d[i] = s[i]; }' % (nm, cty, cty, cty))
-            o.append('static void ir2c_memmove_%s(%s* d, %s* s, size_t n) { size_t k = n / sizeof(%s); if ((u8*)d <= (u8*)s) { for (size_t i = 0; i < k; i++) d[i] = s[i]; } else { for (size_t i = k; i > 0; i--) d[i-1] = s[i-1]; } }' % (nm, cty, cty, cty))
+            o.append('static void ir2c_memmove_%s(%s* d, %s* s, size_t n) { size_t k = n / sizeof(%s); if (!__CPROVER_same_object(d, s) || (u8*)d <= (u8*)s) { for (size_t i = 0; i < k; i++) d[i] = s[i]; } else { for (size_t i = k; i > 0; i--) d[i-1] = s[i-1]; } }' % (nm, cty, cty, cty))
         o.extend(protos)
         o.extend(gl)
         o.extend(body)
@@ -1027,8 +1027,9 @@ class Emitter:
             rty = parse_type(p)
             # rty may be a full function type "ret (args)*" when varargs / indirect
             fty = None
-            if rty[0] == 'ptr' and rty[1][0] == 'func' and (p.peek()[0] in '%@' ):
-                fty = rty[1]; rty = fty[1]
+            if rty[0] == 'func':
+                # "call <fnty> @callee(...)" form (varargs / mismatched prototypes): the type given is the callee's function type
+                fty = rty; rty = fty[1]
             callee_tok = p.next()
             if callee_tok == 'bitcast':
                 # call through a constant-expression cast of a known function: treat as a direct call
@@ -1496,6 +1497,7 @@ BUILTIN_DECLS = {'verif_assert_at', 'verif_known_at', 'verif_reach', '_Znwm', '_
 PRELUDE = r'''
 void __CPROVER_assume(_Bool);
 #ifdef VF_NATIVE
+#define __CPROVER_same_object(a, b) 1
 void vf_native_assert(int c, const char *m); void vf_native_assume(int c); void vf_native_reach(void);
 #define __CPROVER_assert(c, m) vf_native_assert(!!(c), m)
 #define __CPROVER_assume(c) vf_native_assume(!!(c))
